@@ -13,6 +13,7 @@ import (
 	"strconv"
 	"strings"
 	"sync"
+	"sync/atomic"
 	"time"
 )
 
@@ -260,6 +261,8 @@ func RunCheck(prop *Prop, tier string, seed uint64, workers int, verifDir string
 	}
 	var crashMu sync.Mutex
 	var crashed []*Plan
+	var isolated []*WorkerResult
+	var abandoned atomic.Int32
 	for i := 0; i < workers; i++ {
 		go func(i int) {
 			defer func() { done <- i }()
@@ -283,13 +286,31 @@ func RunCheck(prop *Prop, tier string, seed uint64, workers int, verifDir string
 				if k := strings.LastIndex(stderr, "@run "); k >= 0 {
 					fmt.Sscanf(stderr[k:], "@run %d", &last)
 				}
-				if last < 0 || attempt >= 4 {
+				if last >= 0 && attempt >= 4 {
+					// this shard keeps dying in different runs; the crashes already isolated are reported,
+					// the rest of the shard is abandoned (the batch is then incomplete, which the summary says)
+					fmt.Fprintf(os.Stderr, "note: worker %d died %d times (last in run %d); the rest of its shard is abandoned\n", i, attempt+1, last)
+					abandoned.Add(1)
+					outs[i].res = &WorkerResult{Stats: NewStats()}
+					return
+				}
+				if last < 0 {
 					outs[i].err = fmt.Errorf("worker %d: %v: %s", i, err, tail(stripMarkers(stderr), 2000))
 					return
 				}
-				_, stderr2, err2 := runChild(self, []string{"-worker", "-prop", prop.ID, "-tier", tier, "-seed", strconv.FormatUint(seed, 10), "-shard", "0/1", "-only", strconv.Itoa(last)}, watchdog)
+				stdout2, stderr2, err2 := runChild(self, []string{"-worker", "-prop", prop.ID, "-tier", tier, "-seed", strconv.FormatUint(seed, 10), "-shard", "0/1", "-only", strconv.Itoa(last)}, watchdog)
 				if err2 == nil {
-					outs[i].err = fmt.Errorf("worker %d died in run %d but the run passes in isolation (not reproducible): %v: %s", i, last, err, tail(stripMarkers(stderr), 1500))
+					// alone, the run completes (typically a multi-gigabyte allocation that only fails in a
+					// long-lived worker): take its verdict from the isolated execution and go on
+					one := &WorkerResult{}
+					if json.Unmarshal(stdout2, one) == nil && one.Stats != nil {
+						crashMu.Lock()
+						isolated = append(isolated, one)
+						crashMu.Unlock()
+						skip = append(skip, strconv.Itoa(last))
+						continue
+					}
+					outs[i].err = fmt.Errorf("worker %d died in run %d; the run completes in isolation but its result is unreadable: %v: %s", i, last, err, tail(stripMarkers(stderr), 1500))
 					return
 				}
 				plan := prop.Generate(NewPRNG(Mix(seed, uint64(last))), last, tier)
@@ -341,6 +362,14 @@ func RunCheck(prop *Prop, tier string, seed uint64, workers int, verifDir string
 		failing = append(failing, r.Violations...)
 		digest += r.Digest
 	}
+	for _, r := range isolated {
+		agg.Merge(r.Stats)
+		for _, s := range r.Sigs {
+			sigs[s] = struct{}{}
+		}
+		failing = append(failing, r.Violations...)
+		digest += r.Digest
+	}
 	failing = append(failing, crashed...)
 	sort.Slice(failing, func(i, j int) bool { return failing[i].Run < failing[j].Run })
 
@@ -374,13 +403,30 @@ func RunCheck(prop *Prop, tier string, seed uint64, workers int, verifDir string
 			}
 			return vv
 		}
-		budget := 3000
+		var minPlan *Plan
+		var minV *Violation
+		var info *MinInfo
 		if strings.HasSuffix(v.Oracle, ".fatal") {
 			// executing this plan kills the process: every candidate runs in a child
-			execOnce = func(c *Plan) *Violation { return execInChild(self, c) }
-			budget = 120
+			minPlan, minV, info = Minimise(fp, v, func(c *Plan) *Violation { return execInChild(self, c) }, 120)
+		} else {
+			// minimise in a child process: a shrunk candidate may drive the (defective) library into a
+			// fatal runtime error, which must not take the driver down
+			minPlan, minV, info = minimiseInChild(self, fp)
+			if minPlan == nil {
+				fmt.Fprintf(os.Stderr, "note: the in-process minimiser died on a candidate of run %d; minimising with isolated executions\n", fp.Run)
+				same := func(c *Plan) *Violation {
+					vv := execInChild(self, c)
+					if vv != nil && vv.Oracle == prop.ID+".other" {
+						vv.Oracle = v.Oracle // a normal violation; the confirmation replay checks the oracle
+						vv.Sig, vv.Message, vv.Expected, vv.Observed, vv.AtEvent = v.Sig, v.Message, v.Expected, v.Observed, v.AtEvent
+					}
+					return vv
+				}
+				minPlan, minV, info = Minimise(fp, v, same, 100)
+			}
 		}
-		minPlan, minV, info := Minimise(fp, v, execOnce, budget)
+		_ = execOnce
 		key = minV.Oracle + "|" + minV.Sig
 		if reported[key] {
 			continue
@@ -487,6 +533,10 @@ func RunCheck(prop *Prop, tier string, seed uint64, workers int, verifDir string
 		return 1
 	}
 	if replayMismatch {
+		return 2
+	}
+	if abandoned.Load() > 0 {
+		fmt.Fprintf(os.Stderr, "ERROR: %d shard(s) were abandoned after repeated worker deaths and no violation could be confirmed\n", abandoned.Load())
 		return 2
 	}
 	return 0
@@ -662,4 +712,59 @@ func execInChild(self string, p *Plan) *Violation {
 			Expected: "no crash", Observed: "fatal error", Sig: p.Property + "/fatal/" + fatalKind(stderr)}
 	}
 	return nil
+}
+
+// minimiseInChild runs the in-process minimiser in a child process and
+// returns nil if that process died.
+func minimiseInChild(self string, fp *Plan) (*Plan, *Violation, *MinInfo) {
+	in, err := os.CreateTemp("", "verif-min-in-*.json")
+	if err != nil {
+		return nil, nil, nil
+	}
+	in.Close()
+	out := in.Name() + ".out"
+	defer os.Remove(in.Name())
+	defer os.Remove(out)
+	b, _ := json.Marshal(fp)
+	if err := os.WriteFile(in.Name(), b, 0o644); err != nil {
+		return nil, nil, nil
+	}
+	if _, _, err := runChild(self, []string{"-minimise", in.Name(), "-minimise-out", out}, 10*time.Minute); err != nil {
+		return nil, nil, nil
+	}
+	p, err := LoadPlan(out)
+	if err != nil || p.Violation == nil || p.Minimisation == nil {
+		return nil, nil, nil
+	}
+	v, info := p.Violation, p.Minimisation
+	return p, v, info
+}
+
+// MinimiseFile is the child side of minimiseInChild.
+func MinimiseFile(inPath, outPath string) int {
+	b, err := os.ReadFile(inPath)
+	if err != nil {
+		return 2
+	}
+	fp := &Plan{}
+	if err := json.Unmarshal(b, fp); err != nil || fp.Violation == nil {
+		return 2
+	}
+	prop := Registry[fp.Property]
+	if prop == nil {
+		return 2
+	}
+	execOnce := func(c *Plan) *Violation {
+		vv, herr := SafeExecute(prop, c, NewStats())
+		if herr != nil {
+			return nil
+		}
+		return vv
+	}
+	minPlan, minV, info := Minimise(fp, fp.Violation, execOnce, 3000)
+	minPlan.Violation, minPlan.Minimisation = minV, info
+	if err := minPlan.Save(outPath); err != nil {
+		return 2
+	}
+	return 0
 }
